@@ -259,3 +259,26 @@ func runWin(w stepWin, ops []wop, keyed bool) string {
 }
 
 var harnessBase = time.Now().UnixNano()
+
+// overflowThenQuiet: a burst of more than 100 rows with increasing timestamps and no delivery in between (the sends
+// beyond the watermark channel's capacity are skipped), then the source goes quiet: drain, one tick, drain. The tick
+// must re-deliver the skipped watermark, so the tail windows still come out (Spec/QuietSpec.v).
+func overflowThenQuiet(rng *RNG, period int64, keys []string) []wop {
+	var ops []wop
+	t := int64(2000) + int64(rng.Intn(int(period)+1))
+	n := 105 + rng.Intn(40)
+	for j := 1; j <= n; j++ {
+		t += 1 + int64(rng.Intn(int(period)))
+		o := wop{kind: 'A', id: int64(j), ts: t}
+		if len(keys) > 0 {
+			o.key = keys[rng.Intn(len(keys))]
+		}
+		ops = append(ops, o)
+	}
+	if rng.Intn(2) == 0 { // part of the backlog is handled before the source goes quiet
+		for j := rng.Intn(60); j > 0; j-- {
+			ops = append(ops, wop{kind: 'D', inj: [][]wop{}})
+		}
+	}
+	return append(ops, wop{kind: 'X'}, wop{kind: 'K'}, wop{kind: 'X'})
+}
